@@ -58,6 +58,8 @@ SortedLL2E == {s \in LL2 : SortedBy(Ref2(TRUE), s, <<"#1", "#2">>)}
 SortedRL2N == {s \in RL2 : SortedBy(Ref2(FALSE), s, <<"#1", "#2">>)}
 SortedRL2E == {s \in RL2 : SortedBy(Ref2(TRUE), s, <<"#1", "#2">>)}
 RectLL1 == {s \in LL1 : Rect(s)}
+RectSortedLL1N == SortedLL1N \cap RectLL1
+RectSortedLL1E == SortedLL1E \cap RectLL1
 
 \* ---- configurations ------------------------------------------------------------------------------
 NoLk == [on |-> FALSE, f |-> <<>>]
@@ -97,8 +99,9 @@ Configs2 ==
 IsCsv(c) == c.fmt \in {"--icsv", "-i csv"}
 \* the left files / right streams a configuration is run on: -s only on sorted inputs, a CSV left file only for
 \* rectangular non-empty lists
-Lefts1(c) == (IF c.mode = "-s" THEN (IF c.ie THEN SortedLL1E ELSE SortedLL1N) ELSE LL1)
-             \cap (IF IsCsv(c) THEN RectLL1 ELSE LL1)
+Lefts1(c) == IF c.mode = "-s" THEN (IF c.ie THEN (IF IsCsv(c) THEN RectSortedLL1E ELSE SortedLL1E)
+                                    ELSE (IF IsCsv(c) THEN RectSortedLL1N ELSE SortedLL1N))
+             ELSE (IF IsCsv(c) THEN RectLL1 ELSE LL1)
 Rights1(c) == IF c.mode = "-s" THEN (IF c.ie THEN SortedRL1E ELSE SortedRL1N) ELSE RL1
 Lefts2(c) == IF c.mode = "-s" THEN (IF c.ie THEN SortedLL2E ELSE SortedLL2N) ELSE LL2
 Rights2(c) == IF c.mode = "-s" THEN (IF c.ie THEN SortedRL2E ELSE SortedRL2N) ELSE RL2
